@@ -472,21 +472,35 @@ func slotEdgeBounded(p *Prog, site ssa.CallInstruction) (bool, string) {
 				}
 			}
 		}
+		// the scope handed on: nil, or the scope that was current where the component was included — the
+		// `outer` link of the scope the content was found in (strictly older: see outerLinksAcyclic)
+		removes := func(v ssa.Value) bool {
+			if isNilConst(v) {
+				return true
+			}
+			if f := loadedField(v); f != nil && fieldIs(f, "outer") {
+				return true
+			}
+			return false
+		}
 		cleared := false
 		for _, st := range stores {
-			if isNilConst(st.Val) && dominates(st, site) {
+			if removes(st.Val) && dominates(st, site) {
 				cleared = true
 			}
 		}
 		if !cleared {
-			return false, "no `ctx.SlotScope = nil` dominates the call in " + shortName(fn)
+			return false, "no `ctx.SlotScope = nil` (or `= scope.outer`) dominates the call in " + shortName(fn)
 		}
 		for _, st := range stores {
-			if !isNilConst(st.Val) && canFollow(st, site) {
+			if !removes(st.Val) && canFollow(st, site) {
 				return false, "ctx.SlotScope is assigned again before the call"
 			}
 		}
-		notes = append(notes, "ctx.SlotScope = nil dominates the call")
+		if ok, why := p.outerLinksAcyclic(); !ok {
+			return false, why
+		}
+		notes = append(notes, "the context handed on carries nil or the found scope's outer scope (outer links only point to older scopes)")
 	}
 	if inherited {
 		hidden := false
@@ -2590,4 +2604,55 @@ func (p *Prog) inRecursion(fn *ssa.Function) bool {
 		}
 	}
 	return false
+}
+
+// outerLinksAcyclic: the `outer` link of a slot scope is written only on a scope that was created in
+// the same function (fresh), with the scope that was current before the new one is installed — so the
+// chain of outer links only leads to older scopes and ends.
+func (p *Prog) outerLinksAcyclic() (bool, string) {
+	n := 0
+	for _, fn := range p.Funcs {
+		bad := ""
+		eachInstr(fn, func(in ssa.Instruction) {
+			st, ok := in.(*ssa.Store)
+			if !ok {
+				return
+			}
+			fv := fieldVar(st.Addr)
+			if fv == nil || !fieldIs(fv, "outer") || fv.Pkg() == nil || fv.Pkg().Path() != modPath {
+				return
+			}
+			n++
+			fa := st.Addr.(*ssa.FieldAddr)
+			fresh := false
+			var freshVals []ssa.Value
+			for _, o := range p.origins(fa.X, OriginOpts{}) {
+				switch x := o.(type) {
+				case *ssa.Alloc:
+					fresh = true
+					freshVals = append(freshVals, x)
+				case *ssa.Call:
+					if n := calleeName(&x.Call); strings.HasSuffix(n, "extractSlotContent") || strings.HasSuffix(n, "NewSlotScope") {
+						fresh = true
+						freshVals = append(freshVals, x)
+					}
+				}
+			}
+			if !fresh {
+				bad = "the outer link of an existing slot scope is rewritten at " + p.instrPos(st)
+				return
+			}
+			for _, o := range p.origins(st.Val, OriginOpts{}) {
+				for _, f := range freshVals {
+					if o == f {
+						bad = "a slot scope is made its own outer scope at " + p.instrPos(st)
+					}
+				}
+			}
+		})
+		if bad != "" {
+			return false, bad
+		}
+	}
+	return true, ""
 }
